@@ -1293,3 +1293,215 @@ def pad_mask(t, size):
                     mask[off + m.off + b // 8] |= 1 << (b % 8)
     go(t, 0)
     return mask
+
+
+# ----------------------------------------------------------------------------- malformed stream
+def nest(n, inner, wrap):
+    s = inner
+    for _ in range(n):
+        s = wrap % s
+    return s
+
+
+def malformed_cases():
+    """(name, C text, model args or None): must exit 1 with a diagnostic, no crash, no sanitizer report."""
+    dims33 = "[1]" * 33
+    dims31 = "[1]" * 31
+    ty = lambda n: nest(n, "i6.4.1", "A1(%s)")
+    return [
+        ("too-many-array", "int a[2] = {1, 2, 3};", "0 A2(i6.4.1) {n1.1.0.0;n2.1.0.0;n3.1.0.0}"),
+        ("too-many-struct", "struct {int a, b;} s = {1, 2, 3};",
+         "0 S1.8{a:0.0.0:i6.4.1;b:4.0.0:i6.4.1} {n1.1.0.0;n2.1.0.0;n3.1.0.0}"),
+        ("too-many-nested", "struct {struct {int a;} s; int b;} x = {{1, 2}, 3};",
+         "0 S2.8{s:0.0.0:S1.4{a:0.0.0:i6.4.1};b:4.0.0:i6.4.1} {{n1.1.0.0;n2.1.0.0};n3.1.0.0}"),
+        ("too-many-union", "union {int a; char b;} u = {1, 2};", "0 U1.4{a:0.0.0:i6.4.1;b:0.0.0:i1.1.1} {n1.1.0.0;n2.1.0.0}"),
+        ("too-many-elided", "int a[2][2] = {1, 2, 3, 4, 5};",
+         "0 A2(A2(i6.4.1)) {n1.1.0.0;n2.1.0.0;n3.1.0.0;n4.1.0.0;n5.1.0.0}"),
+        ("too-many-after-designator", "int a[3] = {[2] = 1, 2};", "0 A3(i6.4.1) {[2]=n1.1.0.0;n2.1.0.0}"),
+        ("too-many-bitfields", "struct {int a:3; int b:5;} s = {1, 2, 3};",
+         "0 S1.4{a:0.0.29:i6.4.1;b:0.3.24:i6.4.1} {n1.1.0.0;n2.1.0.0;n3.1.0.0}"),
+        ("index-out-of-range", "int a[2] = {[2] = 1};", "0 A2(i6.4.1) {[2]=n1.1.0.0}"),
+        ("index-out-of-range-nested", "int a[2][3] = {[1][3] = 1};", "0 A2(A3(i6.4.1)) {[1][3]=n1.1.0.0}"),
+        ("index-negative", "int a[2] = {[-1] = 1};", None),
+        ("index-not-constant", "int n; int a[2] = {[n] = 1};", None),
+        ("no-such-member", "struct {int a;} s = {.b = 1};", "0 S1.4{a:0.0.0:i6.4.1} {.b=n1.1.0.0}"),
+        ("no-such-member-anon", "struct {int a; struct {int b;};} s = {.c = 1};",
+         "0 S2.8{a:0.0.0:i6.4.1;_:4.0.0:S1.4{b:0.0.0:i6.4.1}} {.c=n1.1.0.0}"),
+        ("index-on-struct", "struct {int a;} s = {[0] = 1};", "0 S1.4{a:0.0.0:i6.4.1} {[0]=n1.1.0.0}"),
+        ("member-on-array", "int a[2] = {.x = 1};", "0 A2(i6.4.1) {.x=n1.1.0.0}"),
+        ("designators-33", "int a%s = {%s = 1};" % (dims33, "[0]" * 33), "0 %s {%s=n1.1.0.0}" % (ty(33), "[0]" * 33)),
+        ("braces-33", "int a%s = %s;" % (dims33, nest(34, "1", "{%s}")), "0 %s %s" % (ty(33), nest(34, "n1.1.0.0", "{%s}"))),
+        ("elision-33", "int a%s = {1};" % dims33, "0 %s {n1.1.0.0}" % ty(33)),
+        ("non-constant", "int n; int x = n;", "0 i6.4.1 x"),
+        ("non-constant-in-aggregate", "int n; struct {int a, b;} s = {1, n};",
+         "0 S1.8{a:0.0.0:i6.4.1;b:4.0.0:i6.4.1} {n1.1.0.0;x}"),
+        ("non-constant-call", "int g(void); int x = g();", None),
+        ("non-constant-address-of-local", "void f(void) { int l; static int *p = &l; }", None),
+        ("non-constant-struct-value", "struct S {int a;} s0; struct {struct S s;} t = {s0};", None),
+        ("string-to-int-array", "long a[] = \"abc\";", "1 A0(i8.8.1) s1.1:97/98/99/0"),
+        ("wide-string-to-char-array", "char a[4] = L\"ab\";", "0 A4(i1.1.1) s4.6:97/98/0"),
+        ("braces-around-scalar-twice", "int x = {{1}};", "0 i6.4.1 {{n1.1.0.0}}"),
+        ("empty-braces-unknown-size", "int a[] = {};", "1 A0(i6.4.1) {}"),
+        ("incomplete-struct", "struct S; struct S x = {1};", None),
+        ("vla", "void f(int n) { int a[n] = {1}; }", None),
+        ("pointer-to-int-member", "struct {int a;} s = {\"abc\"};", None),
+    ], [
+        # boundary that must be ACCEPTED: 31 designators / 31 braces use obj[31]
+        ("designators-31", "int a%s = {%s = 7};" % (dims31, "[0]" * 31), "0 %s {%s=n7.1.0.0}" % (ty(31), "[0]" * 31)),
+        ("braces-31", "int a%s = %s;" % (dims31, nest(32, "7", "{%s}")), "0 %s %s" % (ty(31), nest(32, "n7.1.0.0", "{%s}"))),
+    ]
+
+
+def run_malformed(ck, R, ccsan):
+    bad, good = malformed_cases()
+    lines = ["full " + m for _, _, m in bad + good if m]
+    out = iter(R.drv_lines(lines))
+    hist = {}
+    for name, text, m in bad:
+        for targ in TARGETS:
+            r = run_cc(ccsan, targ, text + "\n", os.path.join(R.dir, "m.c"))
+            ck.count(("malformed", name, targ))
+            R.counts["malformed"] += 1
+            san = "AddressSanitizer" in r.stderr or "runtime error" in r.stderr
+            if r.returncode != 1 or san or not r.stderr.strip() or r.stdout.count("\n}") > 99:
+                ck.violation({"kind": "malformed", "name": name, "program": text, "target": targ,
+                              "returncode": r.returncode, "stderr": r.stderr[-600:],
+                              "what": "invalid initialiser not rejected cleanly (expected exit status 1 with a diagnostic)"})
+                break
+            hist[name] = r.stderr.strip().split("error: ")[-1][:60]
+        if m:
+            mo = next(out)
+            if not mo.startswith("error") and mo != "emit-error":
+                ck.violation({"kind": "correspondence", "name": name, "program": text, "model": mo[:200],
+                              "what": "the model accepts an initialiser that cproc-qbe rejects"}, nofail=True)
+    for name, text, m in good:
+        r = run_cc(ccsan, "x86_64-sysv", text + "\n", os.path.join(R.dir, "m.c"))
+        mo = next(out)
+        d = parse_cproc(r.stdout).get("a") if r.returncode == 0 else None
+        if d is None or d.cells != [7, 0, 0, 0] or not mo.startswith("ok 4 | 07000000"):
+            ck.violation({"kind": "depth-boundary", "name": name, "program": text, "returncode": r.returncode,
+                          "stderr": r.stderr[-300:], "model": mo[:100],
+                          "what": "31 nested designators/braces must be accepted (obj[31] exists)"})
+    return hist
+
+
+# ----------------------------------------------------------------------------- corpus
+def run_corpus(ck, R, cc):
+    path = os.path.join(common.VERIF, "corpus", "C07", "witnesses.json")
+    if not os.path.exists(path):
+        return 0
+    import json
+    n = 0
+    for w in json.load(open(path)):
+        n += 1
+        targ = w.get("target", "x86_64-sysv")
+        r = run_cc(cc, targ, w["program"] + "\n", os.path.join(R.dir, "w.c"))
+        ck.count(("corpus", w["name"]))
+        if "auto" in w:
+            # automatic object: g(i) must return the listed bytes
+            ok = r.returncode == 0
+            got = []
+            if ok:
+                funcs, _ = ilpy.parse(r.stdout)
+                for i in range(len(w["auto"]) // 2):
+                    got.append(ilpy.Machine(funcs).call("g", [i]))
+                ok = got == list(bytes.fromhex(w["auto"]))
+        else:
+            datas = parse_cproc(r.stdout) if r.returncode == 0 else {}
+            ok = r.returncode == 0 and all(nm in datas and hexcells(datas[nm].cells) == img for nm, img in w["data"].items())
+            got = {nm: hexcells(datas[nm].cells) for nm in w["data"] if nm in datas}
+        rep = {"kind": "corpus", "name": w["name"], "program": w["program"], "target": targ,
+               "expected": w.get("data") or w.get("auto"), "got": got, "returncode": r.returncode,
+               "stderr": r.stderr[-300:], "what": "witness %s: %s" % (w["name"], w.get("what", ""))}
+        if w.get("status") == "known":
+            if ok:
+                ck.notes.append("model stale: known finding %s no longer reproduces on its witness" % w.get("fid"))
+            else:
+                ck.report(rep, fid=w.get("fid"))
+        elif not ok:
+            ck.violation(rep)
+    return n
+
+
+# ----------------------------------------------------------------------------- the check
+def run(ck):
+    nobj = 1500 if ck.quick else 60000
+    nauto = 150 if ck.quick else 3000
+    ck.cov["rule"] = ("K-B: %d generated (type, initialiser) objects (nested structs/unions/arrays, bit-fields of every "
+                      "base type and width, positional/designated/mixed/overriding/brace-elided/string initialisers, "
+                      "arrays of unknown size, pointers to objects/functions/string literals/compound literals with "
+                      "offsets; extern/static/_Thread_local/block-static) in batches of 25 over the 3 targets: each "
+                      "emitted data definition decoded and compared with the model pipeline, with Spec/InitRef+Image, "
+                      "with sizeof/_Alignof; x86-64 batches also validate the spec against gcc -c; %d of the objects "
+                      "re-run as automatic objects through ilpy byte by byte; malformed initialisers under ASan; "
+                      "corpus witnesses first. distinct_nontrivial counts distinct (type shape, initialiser length "
+                      "class, union-switch, re-initialisation) classes and malformed/corpus cases." % (nobj, nauto))
+    ck.lean_build()
+    if not ck.proofs_ok:
+        ck.notes.append("Props.C07 does not build; searching for a failing input")
+    cc = ck.build_cproc_qbe()
+    ccsan = ck.build_cproc_qbe(sanitize=True)
+    if not ck.drv_ok:
+        raise Broken("drv_c07 does not build: %s" % ck.build_log[-1500:])
+    R = Runner(ck, cc, ck.drv_path())
+    ncorpus = run_corpus(ck, R, cc)
+    mal = run_malformed(ck, R, ccsan)
+    batch, i, autos = 25, 0, 0
+    while i < nobj and len(ck.violations) < 5:
+        targ = TARGETS[(i // batch) % 3]
+        objs = [gen_object(ck.rng, TARGINFO[targ], R.stats, i + k) for k in range(batch)]
+        R.check_batch(objs, targ, use_gcc=(targ == "x86_64-sysv"))
+        for o in objs:
+            if autos * nobj < nauto * (i + batch) and autos < nauto:
+                before = R.counts["auto"]
+                R.check_auto(o, targ)
+                autos += 1 if R.counts["auto"] > before else 0
+        if i == 2 * batch:
+            ck.sample({"K-B object": objs[3].c_text()[:900], "target": targ, "model syntax": ini_m(objs[3].ini)[:300]})
+        i += batch
+    ck.cov["kb_counts"] = R.counts
+    ck.cov["histogram"] = {k: dict(sorted(v.items(), key=lambda kv: -kv[1])[:40]) for k, v in R.stats.items()}
+    ck.cov["malformed_diagnostics"] = mal
+    ck.cov["corpus_witnesses"] = ncorpus
+    if R.counts.get("hyp_fail_without_union_switch"):
+        ck.notes.append("%d objects outside the hypotheses of emitdata_image_ev although no union member was switched"
+                        % R.counts["hyp_fail_without_union_switch"])
+    ck.notes.append("excluded from generation (recorded under C19): `int x = {1, 2};` (scalar-excess-assert), initialised "
+                    "flexible array member (flexible-init-assert); `{}` (C23) as first array element; a string literal "
+                    "directly behind a nested designator (gcc and clang disagree with each other)")
+    if not ck.proofs_ok and not ck.violations:
+        ck.violation({"kind": "proof-broken", "theorem": "CprocVerif.Props.C07 (lake build failed)",
+                      "log": ck.build_log[-3000:]}, nofail=True)
+    ck.assumptions = [
+        "the layout (offsets, bit positions, sizes) handed to parseinit is the one decl.c computes (C06); the check "
+        "recomputes it in Python and cross-checks sizeof/_Alignof and, on x86-64, gcc's object",
+        "constant folding and conversion of the initialiser expressions (C04); float constants are compared through "
+        "their IEEE encodings",
+        "QBE lays out data items b/h/w/l/s/d/z and `$sym + off` as documented (little-endian, no padding between items)",
+        "checks/ilpy.py executes the integer/float-conversion subset of the IL as QBE would (automatic objects)",
+        "gcc 12 (clang 14 as tie-break for inputs gcc rejects) as oracle for Spec/InitRef on x86-64",
+    ]
+
+
+META = {
+    "category": "proof",
+    "text": ("Lean 4 theorems over a model of init.c (initadd with the `last` cursor, initclear, the obj[32] cursor "
+             "machine of parseinit) and of qbe.c:emitdata (string patching, zero gaps, cross-byte bit-field "
+             "accumulator and its masks, trailing z): for EVERY laminar sequence of well-formed initialisers, of any "
+             "length and with bit-field values of any magnitude, the emitted bytes are exactly `foldl write zeros` "
+             "(emitdata_image / emitdata_image_ev), the definition has the object's size, unwritten bits are zero, "
+             "strings are truncated/zero-extended, relocations keep symbol and addend, the list stays sorted without "
+             "partial overlap, later covering initialisers remove earlier ones, the cursor stack never leaves obj[32], "
+             "every produced initialiser lies inside the object.  Tied to /repo on every run by compiling generated "
+             "(type, initialiser) objects with the freshly built cproc-qbe for all targets and comparing every data "
+             "definition with the model pipeline and with the recursive C11 6.7.9 reference (itself validated against "
+             "gcc), by executing automatic objects, and by malformed inputs under ASan."),
+    "design_ref": "DESIGN.md section 4, C07",
+    "note": ("Trusted: Lean kernel + propext/Classical.choice/Quot.sound; the hand-written model (tied by the "
+             "differential run); the Python layout/generator/decoders; gcc as oracle for Spec/InitRef; ilpy for "
+             "automatic objects.  The correspondence between the cursor machine and Spec/InitRef for brace-elided and "
+             "multi-level designated initialisers is differential only (see Props/C07.lean for what is proved).  "
+             "Known findings: union-member-switch (several union members initialised: not laminar, emitdata's own "
+             "XXX), auto-zero-after-patch (funcinit)."),
+    "technique": "Lean 4 proof (invariants over list/accumulator/stack) + differential correspondence on emitted data, gcc-validated spec, executed IL",
+}
